@@ -1,0 +1,29 @@
+//go:build verif
+
+// Contracts for package generator, checked by /verif/govc (comment-only; compiled only with -tags verif).
+package generator
+
+//@ prelude c13
+
+// ---- text is data (C13) -------------------------------------------------------------------------------------
+
+//@ func regoString(s string) string
+//@   assumed
+//@   ensures [C13:A-JSONQ] result == jsonQuote(s)
+
+//@ func regoStringList(values []string) string
+//@   ensures [C13:each-value-quoted] exists q []string :: len(q) == len(values) && (forall j int :: 0 <= j && j < len(values) ==> q[j] == jsonQuote(values[j])) && result == strJoin(q, ",")
+//@   loop 1 /* for i, v := range values */
+//@     invariant [C13] len(quoted) == len(values) && (forall j int :: 0 <= j && j < #i ==> quoted[j] == jsonQuote(values[j]))
+
+//@ func sanitizedMessage(s string) string
+//@   ensures [C13:message-literal] result == jsonQuote(replaceAll(s, "\"", "'"))
+
+//@ func profileName(profile profile.Profile) string
+//@   ensures [C13:profile-name-literal] result == "report[\"profile\"] = " + jsonQuote(profile.Name)
+
+//@ func wrapBranch(name string, message profile.Message, branch BranchRegoResult, matchesVariable string, mappingVariable string, iriExpander *misc.IriExpander) []string
+//@   ensures [C13:validation-name-literal] len(result) >= 1 && hasPrefix(result[len(result) - 1], "  " + matchesVariable + " := error(" + jsonQuote(name) + "," + mappingVariable + ", message ,[")
+
+//@ func regexLiteral(pattern string) string
+//@   ensures [C13:raw-or-quoted] (contains(pattern, "`") ==> result == jsonQuote(pattern)) && (!contains(pattern, "`") ==> result == "`" + pattern + "`")
